@@ -38,6 +38,7 @@ FUZZ = {
     "C09": dict(group="ring", runs=60000, max_len=482, nkinds=21),
     "C14": dict(group="array", runs=60000, max_len=322, nkinds=17),
     "C19": dict(group="locale", runs=120000, max_len=320, nkinds=0),
+    "C18": dict(group="fileio", runs=150000, max_len=200, nkinds=0),   # raw path strings: d 0x00 n
     "C17": dict(group="fileio", runs=40000, max_len=1200, nkinds=-17),   # nkinds -17: the C17 layout (see fuzz_main.cpp)
 }
 
